@@ -48,6 +48,9 @@ type c13Case struct {
 	Prefix    []c13Ident `json:"prefix"`    // other identities using the server first
 	Cache0    bool       `json:"cache0"`
 	Exchange  bool       `json:"exchange"`
+	// SessDelete: a token at the session position is presented to the teardown
+	// route (DELETE /__session__) instead of a call bearing it
+	SessDelete bool `json:"sess_delete,omitempty"`
 }
 
 func c13Auth(r *http.Request) (*vgirpc.AuthContext, error) {
@@ -109,6 +112,9 @@ func genC13(t *rapid.T) c13Case {
 	n := rapid.IntRange(0, 3).Draw(t, "nprefix")
 	for i := 0; i < n; i++ {
 		c.Prefix = append(c.Prefix, genIdent(t, "pre"))
+	}
+	if c.Position == "session" {
+		c.SessDelete = rapid.IntRange(0, 2).Draw(t, "sessdelete") == 0
 	}
 	return c
 }
@@ -268,6 +274,31 @@ func (c c13Case) run(prefix []c13Ident, out *lib.Outcome) (accepted bool, status
 		for k, v := range c.Present.header() {
 			hdr[k] = v
 		}
+		if c.SessDelete {
+			// the teardown route: 204 = this caller's live session was closed;
+			// anything else must leave the minter's session usable
+			resp = lib.DoHTTP(h, "DELETE", "/__session__", hdr, nil)
+			if resp.Panic != "" {
+				out.Violate("C13/panic", "DELETE /__session__ panicked: %s", lib.Short(resp.Panic, 200))
+				return false, 0, false
+			}
+			closed := resp.Status == http.StatusNoContent
+			mh := map[string]string{"VGI-Session": session}
+			for k, v := range c.Mint.header() {
+				mh[k] = v
+			}
+			b0 := len(lib.Events("sess"))
+			lib.PostArrow(h, "/sess_use", lib.BuildRequest("sess_use", lib.EmptyBatch(arrow.NewSchema(nil, nil)), lib.ReqOpts{}), mh)
+			alive := len(lib.Events("sess")) > b0
+			if !closed && !alive && c.Kind == "session" && c.Transform == "asis" {
+				out.Violate("C13/foreign-delete-closed-session", "DELETE /__session__ by %s answered %d, but the session of %s no longer resolves for its owner", c.Present.key(), resp.Status, c.Mint.key())
+			}
+			if closed && alive {
+				out.Violate("C13/delete-204-but-session-alive", "DELETE answered 204 but the session still resolves")
+			}
+			out.Label("session-delete")
+			return closed, resp.Status, true
+		}
 		resp = lib.PostArrow(h, "/sess_use", lib.BuildRequest("sess_use", lib.EmptyBatch(arrow.NewSchema(nil, nil)), lib.ReqOpts{}), hdr)
 	}
 	if resp.Panic != "" {
@@ -370,11 +401,11 @@ func runC13(c c13Case) (out lib.Outcome) {
 
 var propC13 = lib.Prop[c13Case]{
 	ID: "C13",
-	Rule: "ordered pairs (minting identity, presenting identity) over anonymous and (domain, principal) with NUL-free domains (empty, unicode, 'anonymous') and arbitrary principals (empty, with NUL, values colliding under naive framing), biased to pairs differing in exactly one component; token kinds cursor, call, sticky-session, presented at their own or another kind's position as-is, re-encoded in the other alphabet, or with the version byte rewritten; a prefix history of 0-3 other identities using streams and sessions first; call cache default/disabled; producer and exchange. " +
+	Rule: "ordered pairs (minting identity, presenting identity) over anonymous and (domain, principal) with NUL-free domains (empty, unicode, 'anonymous') and arbitrary principals (empty, with NUL, values colliding under naive framing), biased to pairs differing in exactly one component; token kinds cursor, call, sticky-session, presented at their own or another kind's position (a session token on a call bearing it or at the DELETE /__session__ teardown route) as-is, re-encoded in the other alphabet, or with the version byte rewritten; a prefix history of 0-3 other identities using streams and sessions first; call cache default/disabled; producer and exchange. " +
 		"Oracle: accepted iff presenting identity = minting identity and kind = position; refusals are client errors / session_lost and run no state code; same decision with an empty prefix history. Non-trivial: identities differ in exactly one component, or a kind-confusion presentation.",
 	Gen:          genC13,
 	Run:          runC13,
-	Essential:    []string{"legit", "one-component-differs", "kind-confusion:reversion", "kind:session", "pos:session"},
+	Essential:    []string{"legit", "one-component-differs", "kind-confusion:reversion", "kind:session", "pos:session", "session-delete"},
 	EssentialMin: 300,
 }
 
